@@ -49,10 +49,11 @@ static const char *blk(uint32_t c) { static char b[24]; if (c >= 0xAC00 && c <= 
 static wchar_t dbuf[4400];
 
 /* one normalization call with canaries; returns rc, fills out/len */
+static size_t g_bos = BOSU;      /* object size handed to the library: unknown, or exactly dmax elements */
 static int norm_call(const wchar_t *src, int mode, size_t dmax, wchar_t *out, size_t *lenp, int *crashed, int *canary_ok) {
     for (size_t i = 0; i < dmax + 8 && i < 4400; i++) dbuf[i] = CAN;
     int rc = -1; *crashed = 0; *lenp = 777777; h_n = 0; n_calls++;
-    if (sigsetjmp(jb, 1) == 0) { armed = 1; rc = p_norm(dbuf, dmax, src, mode, lenp, BOSU); armed = 0; } else *crashed = 1;
+    if (sigsetjmp(jb, 1) == 0) { armed = 1; rc = p_norm(dbuf, dmax, src, mode, lenp, g_bos); armed = 0; } else *crashed = 1;
     *canary_ok = 1; for (size_t i = dmax; i < dmax + 8; i++) if (dbuf[i] != (wchar_t)CAN) *canary_ok = 0;
     memcpy(out, dbuf, (dmax < 4000 ? dmax : 4000) * sizeof(wchar_t)); return rc;
 }
@@ -73,6 +74,12 @@ static void norm_vector(const char *group, const wchar_t *src, int ns, const wch
             if (verbose) { printf("mode=%s dmax=%zu rc=%d len=%zu crashed=%d canary_ok=%d handler=%d\n", mode ? "NFC" : "NFD", dmax, rc, len, crashed, can, h_n); if (!crashed) show("out", out, rc == 0 ? (int)wcsnlen(out, dmax) : 1); show("expected", exp, ne); }
             if (crashed) { report(fn, "fault", cls, cs); break; }
             if (!can) { report(fn, "writes-beyond-dmax", cls, cs); break; }
+            if (di == 0 || di == 2) {      /* the same call with the object size known (= dmax elements, what the public macro passes for an array): same outcome */
+                wchar_t ok_[4100]; size_t lk; int ck, kk; g_bos = dmax * sizeof(wchar_t); int rk = norm_call(src, mode, dmax, ok_, &lk, &ck, &kk); g_bos = BOSU;
+                if (verbose) printf("  with the object size known: rc=%d len=%zu crashed=%d\n", rk, lk, ck);
+                if (ck) { report(fn, "fault", cls, cs); break; }
+                if (rk != rc || (rc == 0 && (lk != len || memcmp(ok_, out, (len + 1) * sizeof(wchar_t))))) { report(fn, "known-object-size-changes-the-outcome", cls, cs); break; }
+            }
             if (di == 3 || (di == 2 && rc != 0)) {
                 if (rc == 0) { report(fn, "success-although-too-small", cls, cs); break; }
                 if (rc != ESNOSPC && di == 2) { report(fn, "fails-on-valid-input", cls, cs); break; }
